@@ -347,6 +347,15 @@ def judge(spec, res):
         if exp.get('line') is not None and exp.get('file', 'answer.py') == 'answer.py':
             if f['line'] != exp['line']:
                 viol('wrong-line', 'failure raised on student line %s, feedback located at %r' % (exp['line'], f['line']), phase)
+            else:
+                # the rendered traceback ends on the same student line
+                import re as _re
+                shown = [int(n) for n in _re.findall(r'Line (\d+) of file answer\.py', f.get('traceback_message') or '')]
+                if shown and shown[-1] != exp['line']:
+                    viol('traceback-text-ends-elsewhere', 'failure raised on student line %s, traceback text ends at line %s' % (
+                        exp['line'], shown[-1]), phase)
+        if not o.get('sb_feedback_is_new'):
+            viol('sandbox-feedback-not-the-new-one', 'sandbox.feedback is not the runtime feedback attached for this execution', phase)
     return vs
 
 
